@@ -70,7 +70,7 @@ func ptStmt(tc *ptCase) (stmt, after string) {
 			return "local s = 1, function" + pl, "print(s)"
 		}
 		return "local function g" + pl, "print(g)"
-	case "binexp", "andfalse", "floateq", "chain":
+	case "binexp", "andfalse", "floateq", "chain", "idxexp":
 		e := fmt.Sprintf("%s %s %s", tc.A, tc.Op, tc.B)
 		if tc.Fam == "chain" {
 			lit := map[string]string{"or": "true", "and": "false"}[tc.Op]
@@ -108,7 +108,7 @@ func ptBuild(id int, raw json.RawMessage) *Job {
 		return nil
 	}
 	stmt, after := ptStmt(&tc)
-	pre := []string{"local x = tostring(1)", "local y = tostring(2)", "local z = tostring(3)", "local function f() return 1, 2 end", "print(x, y, z, f)"}
+	pre := []string{"local x = tostring(1)", "local y = tostring(2)", "local z = tostring(3)", "local function f() return 1, 2 end", "local t = {1, 2}", "print(x, y, z, f, t)"}
 	var lines []string
 	lines = append(lines, pre...)
 	switch tc.Ctx {
@@ -131,6 +131,13 @@ func ptBuild(id int, raw json.RawMessage) *Job {
 	lines = append(lines, "print(x, y, z)")
 	text := strings.Join(lines, "\n") + "\n"
 	pc := &proto.Case{ID: id, Files: map[string]string{"f.lua": text}, Init: json.RawMessage(allOnLocal)}
+	if hash64(string(raw), 17)%3 == 0 {
+		// a third of the instances are judged after the pattern checks were switched off by a settings change and switched
+		// on again by the next: what is reported must be what a start with everything on reports
+		off := cfgAbs{Src: "change", Master: true, Off: []int{5, 7, 8, 13, 14, 15, 16, 19, 20, 21}}
+		on := cfgAbs{Src: "change", Master: true}
+		pc.Steps = append(pc.Steps, off.changeStep(), on.changeStep(), proto.Step{M: "textDocument/hover", P: posParams("f.lua", 0, 7)})
+	}
 	return &Job{PC: pc, Data: &ptData{&tc, text, ln}}
 }
 
@@ -145,6 +152,9 @@ func ptJudge(c *Ctx, j *Job, res *proto.Result) {
 	}
 	view := map[string][]diag{}
 	foldDiags(res.Root, view, res.InitNtfs)
+	for i := range res.Steps {
+		foldDiags(res.Root, view, res.Steps[i].Ntfs)
+	}
 	count := map[int]int{}
 	for _, x := range view["f.lua"] {
 		if x.Type == 1 {
